@@ -128,6 +128,12 @@ def run_shard(ctx):
         ctx.run_given(gen.long_lists(L), collected.append, 1 if ctx.quick() else 3, name="long-list")
         for c in collected:
             ctx.run_plain(lambda c=c: check_case(ctx, L, c), "long-list")
+    # very long buffers / lists (4094..8193 elements; in the thorough tier up to the UINT16 limit) and a response with
+    # 4096 random bytes, judged outside hypothesis
+    huge = [c for c in gen.huge_cases(L) if len(c.data) <= (9000 if ctx.quick() else 10**6)] + gen.huge_messages(L)[: 1 if ctx.quick() else 3]
+    for c in ctx.mine(huge):
+        ctx.count("huge-encodings")
+        ctx.run_plain(lambda c=c: check_case(ctx, L, c), f"huge:{c.type}:{len(c.data)}")
     wellformed_campaign(ctx, L, lambda case: check_case(ctx, L, case), 2 if ctx.quick() else 5, 4000 if ctx.quick() else 50000)
 
 
